@@ -23,8 +23,9 @@
 //! Known findings (open, /verif/known_findings.json, cases under /verif/regressions/C02/c02/):
 //!  * piecewise-merge-join-planner-unreachable — `enable_piecewise_merge_join=true` + a range join predicate with a
 //!    column-free operand → panic `entered unreachable code` in physical_planner.rs (`side_of`);
-//!  * smj-join-filter-index-out-of-bounds — `prefer_hash_join=false` + left join with join filter (decorrelated scalar
-//!    subquery) → panic in sort_merge_join/filter.rs:163 `index out of bounds`.
+//!  * smj-join-filter-index-out-of-bounds — `prefer_hash_join=false` + equi-join with an extra ON filter whose columns
+//!    the select list does not use (projection pushed through SortMergeJoinExec, filter indices not remapped)
+//!    → panic in sort_merge_join/filter.rs:163 `index out of bounds`.
 //! Both are excluded by construction through `known_signature` (option present ∧ query shape).
 //!
 //! Sensitivity probes: not run for lack of machine time (each mutrun rebuild took ~30 min under the shared load);
@@ -204,9 +205,10 @@ fn join_with_range_predicate(q: &refsql::Query) -> bool {
     found
 }
 
-/// an outer join with a non-equi ON conjunct, or a correlated scalar subquery (decorrelated into a left join with filter)
+/// a join (any kind) whose ON carries something besides column equalities, or a correlated subquery
+/// (decorrelated into a join with filter) — the shapes whose SortMergeJoin gets a join filter
 fn outer_join_with_filter(q: &refsql::Query) -> bool {
-    use refsql::{BinOp, Expr, JoinKind, SetExpr, TableRef};
+    use refsql::{BinOp, Expr, SetExpr, TableRef};
     fn pure_equi(e: &Expr) -> bool {
         match e {
             Expr::Bin(BinOp::And, l, r) => pure_equi(l) && pure_equi(r),
@@ -215,8 +217,8 @@ fn outer_join_with_filter(q: &refsql::Query) -> bool {
         }
     }
     fn tref(t: &TableRef, found: &mut bool) {
-        if let TableRef::Join { kind, left, right, on } = t {
-            if matches!(kind, JoinKind::Left | JoinKind::Right | JoinKind::Full) && !on.as_ref().map(pure_equi).unwrap_or(true) {
+        if let TableRef::Join { left, right, on, .. } = t {
+            if !on.as_ref().map(pure_equi).unwrap_or(true) {
                 *found = true;
             }
             tref(left, found);
@@ -239,13 +241,9 @@ fn outer_join_with_filter(q: &refsql::Query) -> bool {
     }
     let mut found = false;
     refsql::visit_queries(q, &mut |qq| set(&qq.body, &mut found));
-    refsql::visit_exprs(q, &mut |e| {
-        if let Expr::Scalar(sq) = e {
-            if refsql::has_outer_refs(sq) {
-                found = true;
-            }
-        }
-    });
+    if refsql::is_correlated(q) {
+        found = true;
+    }
     found
 }
 
